@@ -168,6 +168,8 @@ def configs(tier):
         out.append(dict(mode="ack", size=size, seg=seg, closure=closure, naks=2))
     # a put request carrying every kind of Metadata option (filestore request, messages to user): the re-sent Metadata must equal the original
     out.append(dict(mode="ack", size=3, seg=2, closure=False, naks=3, msgs="all", fsreq=True))
+    # configured segment length larger than what max_packet_len allows (header 10 + offset 4 + 6 data bytes): re-sent segments obey the derived length
+    out.append(dict(mode="ack", size=13, seg=20, closure=False, naks=1, mpl=4 + 2 * 2 + 2 + 4 + 6))
     if tier == "thorough":
         # three NAKs per run; PDU CRC flag; wide ids; derived segment length (max_packet_len smaller than the configured segment length allows)
         out.append(dict(mode="ack", size=5, seg=2, closure=False, naks=3))
